@@ -37,9 +37,7 @@ Print Assumptions C02_rendered_unrestricted_refuted.
 (** depot capacities: for every network loaded from an instance with non-negative capacities (JSON capacities are
     unsigned), every schedule reachable by pipeline-shaped histories (valid Paths, fit between different tours, moved
     segments not starting at a depot, valid transitions) and in particular every pipeline result respects the per-type
-    and total capacity of every real depot; the neighbourhood and the pipeline stay inside these histories; without the
-    restriction on the moved segment the invariant fails (known finding F1, proved as a refutation: a maintenance-only
-    tour of type 0 moved into a type-1 vehicle at a depot that admits only type 0) *)
+    and total capacity of every real depot; the neighbourhood and the pipeline stay inside these histories; the former known finding F1 has been repaired *)
 From RS Require Import Schedule SchedInv SchedStruct PipelineSched DepotStmts DepotFacts.
 Theorem C02_pipeline_depot_limits : forall i perm nw, load i perm = Ok nw -> inst_caps_nonneg i -> stmt_pipeline_depot_limits nw.
 Proof. exact pipeline_depot_limits_loaded. Qed.
@@ -53,9 +51,11 @@ Print Assumptions C02_neighbourhood_keeps_segment_shape.
 Theorem C02_pipeline_histories : forall nw, stmt_pipeline_nreachable nw.
 Proof. exact pipeline_nreachable. Qed.
 Print Assumptions C02_pipeline_histories.
-Theorem C02_F1_depot_limits_fail_for_depot_started_segments : stmt_depot_limits_unrestricted_refuted.
-Proof. exact depot_limits_unrestricted_refuted. Qed.
-Print Assumptions C02_F1_depot_limits_fail_for_depot_started_segments.
+(* the former known finding F1 (a maintenance-only tour of type 0, start depot included, moved into a type-1 vehicle at a
+   depot that admits only type 0) is refused since the repair "fix: a start depot handed to the receiver must have room" *)
+Theorem C02_F1_move_is_refused : override_reassign nwD sD2 (SD 0, MT 5) (Veh 0) (Veh 1) = Err.
+Proof. exact F1_move_refused. Qed.
+Print Assumptions C02_F1_move_is_refused.
 
 (** END TO END. For every instance that is valid (valid_instance_b) with unsigned limits and capacities, every network
     [load] builds from it, all flow tours that are valid Paths over nodes of the network, and EVERY result of the
